@@ -6,6 +6,7 @@ import (
 	"strings"
 	"unicode/utf8"
 
+	"github.com/fabiolb/fabio/route"
 	"verif/harness/hx"
 	"verif/harness/rt"
 )
@@ -64,6 +65,7 @@ func runHistory(raw json.RawMessage) (interface{}, error) {
 	svc, man := "", ""
 	var registered, first json.RawMessage
 	fresh := true
+	var lastGood route.Table
 	for i := range in.Events {
 		e := &in.Events[i]
 		text := e.full()
@@ -73,13 +75,23 @@ func runHistory(raw json.RawMessage) (interface{}, error) {
 		} else {
 			svc = text
 		}
-		cmd := map[string]interface{}{"op": op, "n": 2}
+		// what the real NewTable makes of the concatenated text in THIS process, the table that must be active once
+		// the loop has processed the event, and the requests to be looked up through main.go's closures then
+		full := svc + "\n" + man
+		b, tbl := buildText(full)
+		exp := lastGood
+		if tbl != nil {
+			exp = tbl
+		}
+		probes := probesFor(exp, lastGood)
+		cmd := map[string]interface{}{"op": op, "n": 2, "probe": probes}
 		if fresh {
 			// the session starts here: routes format; for via the first update comes from the real backend
 			fresh = false
 			reset := map[string]interface{}{"op": "reset", "fmt": in.Fmt}
 			viaFirst := i == 0 && (in.Via == "static" || in.Via == "file")
 			if viaFirst {
+				reset["probe"] = probes
 				reset["via"] = in.Via
 				setPayload(reset, text)
 			}
@@ -116,16 +128,23 @@ func runHistory(raw json.RawMessage) (interface{}, error) {
 		var rep struct {
 			Table      json.RawMessage `json:"table"`
 			Registered json.RawMessage `json:"registered"`
+			Served     json.RawMessage `json:"served"`
 		}
 		if err := json.Unmarshal(reply, &rep); err != nil || rep.Table == nil {
 			out["crash"] = map[string]interface{}{"badReply": string(reply)}
 			break
 		}
 		registered = rep.Registered
-		full := svc + "\n" + man
-		b, _ := buildText(full)
 		o.addText(full)
 		step := map[string]interface{}{"active": rep.Table, "build": b}
+		if n, bad := checkServed(exp, probes, rep.Served); n > 0 || len(bad) > 0 {
+			sv := map[string]interface{}{"n": n}
+			if len(bad) > 0 {
+				sv["bad"] = bad
+			}
+			step["served"] = sv
+		}
+		lastGood = exp
 		if b["table"] != nil {
 			if n, ok := parsedDefs(full); ok {
 				step["ndefs"] = n
